@@ -69,7 +69,66 @@ func runConcMatrix(a *args) {
 		}(w)
 	}
 	wg.Wait()
-	col.s.Evaluations = int64(nw * iters)
+	// Focused phase (round 8, r8-C13-1: a package-level staging area of the header comparison): all
+	// goroutines are inside the SAME parser at once, the even ones with strings of that version, the odd
+	// ones with strings that are well-formed for ANOTHER version only; no shared counter in the loop,
+	// so that the calls really overlap.  A verdict that leaks from one call into another shows here.
+	var focused int64
+	for _, vn := range verOrder {
+		var own, other []item
+		for _, it := range items {
+			if it.wf[vn] {
+				own = append(own, it)
+				continue
+			}
+			for _, u := range verOrder {
+				if it.wf[u] {
+					other = append(other, it)
+					break
+				}
+			}
+		}
+		if len(own) == 0 || len(other) == 0 {
+			continue
+		}
+		var wg2 sync.WaitGroup
+		var mu sync.Mutex
+		parse := versions[vn].Parse
+		for w := 0; w < nw; w++ {
+			wg2.Add(1)
+			go func(w int, vn string) {
+				defer wg2.Done()
+				rng := rand.New(rand.NewSource(a.Seed*977 + int64(w)))
+				set := own
+				if w%2 == 1 {
+					set = other
+				}
+				for i := 0; i < iters; i++ {
+					it := set[rng.Intn(len(set))]
+					var err error
+					p, _ := safely(func() { _, err = parse(it.s) })
+					acc := !p && err == nil
+					if acc != it.wf[vn] {
+						kind := "accept/reject differs from the grammar (while other goroutines were inside the same parser)"
+						if prop == "C13" {
+							if !acc {
+								continue // a wrong rejection is C01's business
+							}
+							kind = "string of another version accepted (while other goroutines were inside the same parser)"
+						}
+						col.violate(Violation{Property: prop, Kind: kind, Version: vn, Input: inputRec([]byte(it.s)),
+							Expected: map[string]interface{}{"well_formed": it.wf[vn]}, Observed: map[string]interface{}{"accepted": acc}})
+					}
+				}
+				mu.Lock()
+				focused += int64(iters)
+				mu.Unlock()
+			}(w, vn)
+		}
+		wg2.Wait()
+	}
+	col.count("verdicts with all goroutines inside one parser", focused)
+	col.s.Evaluations = int64(nw*iters) + focused
 	col.s.Distinct = int64(len(items))
 	col.s.Nontrivial = int64(len(items))
 	col.sample(map[string]interface{}{"strings": len(items), "goroutines": nw})
